@@ -101,10 +101,11 @@ type gasEnvCfg struct {
 	NAlpha    int     `json:"alphabet"`        // keys in neofs' stored alphabet list
 	WFee      *int64  `json:"withdraw_fee"`    // nil = not configured
 	CFee      *int64  `json:"candidate_fee"`
-	IR        int     `json:"inner_ring"`    // designated NeoFSAlphabet keys (0 = none designated)
-	AlphaIdx  []int64 `json:"alpha_index"`   // index argument of each deployed Alphabet contract
-	ProxyKind int     `json:"proxy_kind"`    // 0: real proxy, 1: plain account, 2: the neofs contract
-	FundAlpha int64   `json:"fund_alphabet"` // GAS given to Alphabet contract i at setup: (i+1)*FundAlpha
+	IR        int     `json:"inner_ring"`     // designated NeoFSAlphabet keys (0 = none designated)
+	AlphaIdx  []int64 `json:"alpha_index"`    // index argument of each deployed Alphabet contract
+	ProxyKind int     `json:"proxy_kind"`     // 0: real proxy, 1: plain account, 2: the neofs contract
+	FundAlpha int64   `json:"fund_alphabet"`  // GAS given to Alphabet contract i at setup: (i+1)*FundAlpha
+	Payee     bool    `json:"payee_contract"` // deploy testdata/votepayee: a contract payee that calls back into NeoFS while it is paid
 }
 
 type gasEnv struct {
@@ -128,6 +129,7 @@ type gasEnv struct {
 	signers                                 map[string]neotest.Signer // by name
 	fsAlphaMulti                            neotest.Signer
 	junkKey                                 []byte
+	payee                                   util.Uint160 // testdata/votepayee (cfg.Payee)
 }
 
 const gasUserFunds = 30000_0000_0000 // 30000 GAS
@@ -219,6 +221,11 @@ func newGasEnv(t testing.TB, cfg gasEnvCfg) *gasEnv {
 	e.DeployContract(t, cTok, nil)
 	e.DeployContract(t, cAcc, nil)
 	g.neofs, g.processing, g.proxy, g.token, g.accept = cNeofs.Hash, cProc.Hash, cProxy.Hash, cTok.Hash, cAcc.Hash
+	if cfg.Payee {
+		cPay := contractFor(v.CompileHelper("votepayee"), vh)
+		e.DeployContract(t, cPay, nil)
+		g.payee = cPay.Hash
+	}
 
 	g.plain = [][]byte{append(bytes.Repeat([]byte{0xA1}, 19), 1), append(bytes.Repeat([]byte{0xA2}, 19), 2)}
 	switch cfg.ProxyKind {
@@ -265,6 +272,9 @@ func newGasEnv(t testing.TB, cfg gasEnvCfg) *gasEnv {
 	add("proxy", g.proxy.BytesBE())
 	add("accept", g.accept.BytesBE())
 	add("token", g.token.BytesBE())
+	if cfg.Payee {
+		add("payee", g.payee.BytesBE())
+	}
 	for i, a := range g.alphabets {
 		add(fmt.Sprintf("alphabet%d", i), a.BytesBE())
 	}
@@ -394,6 +404,27 @@ type gasOp struct {
 	// in the SAME block just before this one (it is in force from the next block).
 	// Kind "designate" is the same transaction in a block of its own (Keys).
 	Pre [][]byte `json:"pre_designate,omitempty"`
+	// arm: the program the payee contract runs when it is paid next: calls back
+	// into the payer, then optionally panics
+	Calls []gasCall `json:"calls,omitempty"`
+	Fault bool      `json:"fault,omitempty"`
+}
+
+// gasCall: a call of NeoFS made by the payee contract from its onNEP17Payment:
+// cheque(ID, To, Amount, Lock) or withdraw(To, Amount).
+type gasCall struct {
+	Kind   string `json:"kind"`
+	ID     []byte `json:"id,omitempty"`
+	To     []byte `json:"to,omitempty"`
+	Amount int64  `json:"amount"`
+	Lock   []byte `json:"lock,omitempty"`
+}
+
+func (c gasCall) String() string {
+	if c.Kind == "withdraw" {
+		return fmt.Sprintf("withdraw(%s,%d)", Hex(c.To), c.Amount)
+	}
+	return fmt.Sprintf("cheque(id=%s,to=%s,amount=%d)", Hex(c.ID), Hex(c.To), c.Amount)
 }
 
 func (o gasOp) String() string {
@@ -422,6 +453,12 @@ func (o gasOp) String() string {
 		s += fmt.Sprintf("id=%s,nkeys=%d,", Hex(o.ID), len(o.Keys))
 	case "designate":
 		s += "innerRing=" + keyNames(o.Keys) + ","
+	case "arm":
+		var cs []string
+		for _, c := range o.Calls {
+			cs = append(cs, c.String())
+		}
+		s += fmt.Sprintf("payee on next payment calls [%s] fault=%v,", strings.Join(cs, "; "), o.Fault)
 	}
 	if o.Pre != nil {
 		s += "sameBlockAfterDesignate=" + keyNames(o.Pre) + ","
@@ -464,6 +501,7 @@ type gasObs struct {
 	minted    *big.Int
 	entryHash []byte
 	ir        [][]byte // Inner Ring in force for the block of the transaction
+	payments  int64    // payee contract: completed onNEP17Payment callbacks (cfg.Payee)
 }
 
 func (g *gasEnv) readKeys(h util.Uint160, method string, args ...any) [][]byte {
@@ -549,6 +587,18 @@ func (g *gasEnv) prepare(op gasOp) *transaction.Transaction {
 		return g.PrepareTx(sg, g.neofs, "alphabetUpdate", op.ID, keys)
 	case "designate":
 		return g.designateTx(op.Keys)
+	case "arm":
+		calls := make([]any, len(op.Calls))
+		for i, c := range op.Calls {
+			if c.Kind == "withdraw" {
+				calls[i] = []any{"withdraw", []any{c.To, c.Amount}}
+			} else {
+				calls[i] = []any{"cheque", []any{c.ID, c.To, c.Amount, c.Lock}}
+			}
+		}
+		return g.PrepareTx(sg, g.payee, "arm", calls, op.Fault)
+	case "disarm":
+		return g.PrepareTx(sg, g.payee, "disarm")
 	case "emit":
 		return g.PrepareTx(sg, h(op.To), "emit")
 	case "verify":
@@ -616,6 +666,9 @@ func (g *gasEnv) observeState(o *gasObs) {
 	_, o.cfeeNil = it.(stackitem.Null)
 	o.cfee = ItemBytes(it)
 	o.alpha = g.readKeys(g.neofs, "alphabetList")
+	if g.cfg.Payee {
+		o.payments = g.ReadInt(g.payee, "payments").Int64()
+	}
 }
 
 func (g *gasEnv) exec(op gasOp) gasObs {
@@ -1286,6 +1339,53 @@ func (gg *gasGen) next(step int) gasOp {
 	}
 }
 
+// nextRe: seeded histories around the contract payee (cfg.Payee): deposits,
+// arming with a random program, cheque votes of two competing ids.
+func (gg *gasGen) nextRe(step int) gasOp {
+	r := gg.r
+	g := gg.g
+	N, H := g.neofs.BytesBE(), g.payee.BytesBE()
+	null := gasData{Kind: "null"}
+	if step == 0 {
+		return gasOp{Kind: "gasTransfer", From: gg.uhash(0), To: N, Amount: bn(1 + r.Int63n(2000)), Data: null, Signers: []string{"U0"}}
+	}
+	member := func() int { return r.Intn(len(g.alpha)) }
+	idOf := func(i int) []byte { return []byte{0x51 + byte(i)} }
+	chequeArgs := func(i int) gasCall {
+		to := H
+		if i == 1 && r.Intn(3) == 0 {
+			to = gg.uhash(3)
+		}
+		return gasCall{Kind: "cheque", ID: idOf(i), To: to, Amount: []int64{10, 25}[i], Lock: []byte{byte(i)}}
+	}
+	switch w := r.Intn(100); {
+	case w < 8:
+		return gasOp{Kind: "gasTransfer", From: gg.uhash(0), To: N, Amount: bn(1 + r.Int63n(500)), Data: null, Signers: []string{"U0"}}
+	case w < 14:
+		return gasOp{Kind: "gasTransfer", From: gg.uhash(0), To: g.alpha[member()].ScriptHash().BytesBE(), Amount: bn(1 + r.Int63n(50)), Data: null, Signers: []string{"U0"}}
+	case w < 36:
+		var cs []gasCall
+		for k := r.Intn(3); k > 0; k-- {
+			switch r.Intn(5) {
+			case 0:
+				cs = append(cs, gasCall{Kind: "withdraw", To: g.alpha[member()].ScriptHash().BytesBE(), Amount: int64(r.Intn(9002))})
+			default:
+				cs = append(cs, chequeArgs(r.Intn(2)))
+			}
+		}
+		return gasOp{Kind: "arm", Calls: cs, Fault: r.Intn(5) == 0}
+	case w < 40:
+		return gasOp{Kind: "disarm"}
+	default:
+		c := chequeArgs(r.Intn(2))
+		sg := fmt.Sprintf("A%d", member())
+		if r.Intn(20) == 0 {
+			sg = "U0"
+		}
+		return gasOp{Kind: "cheque", ID: c.ID, To: c.To, Amount: bn(c.Amount), Lock: c.Lock, Signers: []string{sg}}
+	}
+}
+
 func gasRandomCfg(r *rand.Rand, thorough bool) gasEnvCfg {
 	fee := func() *int64 {
 		var v int64
@@ -1627,6 +1727,67 @@ func gasCorpus(thorough bool) []gasCorpusEntry {
 	}
 	out = append(out, gasCorpusEntry{"own-hash-accounts-notary", gasEnvCfg{NC: 1, WFee: i64p(7), CFee: i64p(11), IR: 1, AlphaIdx: []int64{0}}, ownHash})
 	out = append(out, gasCorpusEntry{"own-hash-accounts-nonotary", gasEnvCfg{NC: 1, NotaryOff: true, NAlpha: 2, WFee: i64p(7), CFee: i64p(11), IR: 1, AlphaIdx: []int64{0}}, ownHash})
+	// a CONTRACT as cheque payee (testdata/votepayee) that, while it is paid,
+	// calls back into NeoFS: nothing / the same cheque again / another id /
+	// withdraw by the signing member / a panic.  Notary disabled, 1..4 keys.
+	// Judged by the Go monitor's reference tally (the model has no re-entrant
+	// receivers): one payment and one Cheque per approval, identity after every tx.
+	reentry := func(g *gasEnv) []gasOp {
+		N, H := g.neofs.BytesBE(), g.payee.BytesBE()
+		th := len(g.alpha)*2/3 + 1
+		last := fmt.Sprintf("A%d", th-1)
+		lastAcc := g.alpha[th-1].ScriptHash().BytesBE()
+		ops := []gasOp{{Kind: "gasTransfer", From: u(g, 0), To: N, Amount: bn(1_000_000), Data: null, Signers: []string{"U0"}},
+			{Kind: "gasTransfer", From: u(g, 0), To: lastAcc, Amount: bn(10_000), Data: null, Signers: []string{"U0"}},
+			{Kind: "gasTransfer", From: u(g, 0), To: H, Amount: bn(5), Data: null, Signers: []string{"U0"}}}
+		type prog struct {
+			calls func(id, other []byte) []gasCall
+			fault bool
+		}
+		same := func(id []byte) gasCall { return gasCall{Kind: "cheque", ID: id, To: H, Amount: 10, Lock: []byte{7}} }
+		progs := []prog{
+			{func(id, o []byte) []gasCall { return nil }, false},
+			{func(id, o []byte) []gasCall { return []gasCall{same(id)} }, false},
+			{func(id, o []byte) []gasCall { return []gasCall{same(id), same(id)} }, false},
+			{func(id, o []byte) []gasCall {
+				return []gasCall{{Kind: "cheque", ID: o, To: H, Amount: 10, Lock: []byte{7}}}
+			}, false},
+			{func(id, o []byte) []gasCall {
+				return []gasCall{{Kind: "cheque", ID: o, To: u(g, 3), Amount: 33, Lock: []byte{8}}}
+			}, false},
+			{func(id, o []byte) []gasCall { return nil }, true},
+			{func(id, o []byte) []gasCall { return []gasCall{same(id)} }, true},
+			{func(id, o []byte) []gasCall { return []gasCall{{Kind: "withdraw", To: lastAcc, Amount: 3}} }, false},
+			{func(id, o []byte) []gasCall {
+				return []gasCall{same(id), {Kind: "withdraw", To: lastAcc, Amount: 9001}}
+			}, false},
+			{func(id, o []byte) []gasCall {
+				return []gasCall{{Kind: "cheque", ID: id, To: H, Amount: 2_000_000, Lock: []byte{7}}}
+			}, false},
+		}
+		for i, p := range progs {
+			id, other := []byte{0x50, byte(i)}, []byte{0x60, byte(i)}
+			chq := func(sg string) gasOp {
+				return gasOp{Kind: "cheque", ID: id, To: H, Amount: bn(10), Lock: []byte{7}, Signers: []string{sg}}
+			}
+			arm := gasOp{Kind: "arm", Calls: p.calls(id, other), Fault: p.fault}
+			if i%2 == 1 {
+				ops = append(ops, arm) // armed before the first vote: votes do not pay, the program waits
+			}
+			for k := 0; k < th-1; k++ {
+				ops = append(ops, chq(fmt.Sprintf("A%d", k)))
+			}
+			if i%2 == 0 {
+				ops = append(ops, arm)
+			}
+			ops = append(ops, chq(last), chq(last), chq("U0"), gasOp{Kind: "disarm"})
+		}
+		return ops
+	}
+	for _, na := range []int{1, 2, 4} {
+		out = append(out, gasCorpusEntry{fmt.Sprintf("payee-contract-%d", na),
+			gasEnvCfg{NC: 1, NotaryOff: true, NAlpha: na, WFee: i64p(2), CFee: i64p(1), IR: 1, AlphaIdx: []int64{0}, Payee: true}, reentry})
+	}
 	// accept-only is a function of the CALLER alone (NeoFS: plus the marker):
 	// every receiver x every caller kind x every claimed sender x data shapes
 	out = append(out, gasCorpusEntry{"accept-only-from", gasEnvCfg{NC: 1, WFee: i64p(7), CFee: i64p(11), IR: 1, AlphaIdx: []int64{0}},
@@ -1797,6 +1958,147 @@ type gasMon struct {
 	received *big.Int
 	paid     *big.Int
 	bad      bool
+	re       *reState // deployments with the payee contract (notary disabled): reference tally of the cheque votes
+}
+
+// reState: the reference for histories with a re-entrant payee: per decision id
+// the distinct Alphabet keys that voted and the height of the last new vote
+// (a ballot older than 20 blocks is void), what the payee is armed with, how
+// many payments it completed.  A cheque is paid when, and only when, a vote
+// makes the tally reach 2n/3+1; the tally is erased BEFORE the payment, so a
+// payee calling cheque again with the same id casts a first vote of a new
+// ballot (and is paid again only if one vote is the whole threshold).
+type reState struct {
+	tally    map[string]*reTally
+	armed    *reProg
+	payments int64
+}
+type reTally struct {
+	voters []string
+	last   int64
+}
+type reProg struct {
+	calls []gasCall
+	fault bool
+}
+
+func (s *reState) clone() *reState {
+	c := &reState{tally: map[string]*reTally{}, payments: s.payments}
+	for k, t := range s.tally {
+		c.tally[k] = &reTally{voters: append([]string{}, t.voters...), last: t.last}
+	}
+	if s.armed != nil {
+		c.armed = &reProg{calls: s.armed.calls, fault: s.armed.fault}
+	}
+	return c
+}
+
+// reRun: what the transaction `top` (a cheque by the first stored Alphabet key
+// that witnesses it) must do: halt?, notifications in order, balance deltas.
+func (m *gasMon) reRun(o gasObs, top gasCall) (bool, []gasEv, map[string]*big.Int) {
+	g := m.g
+	N := g.neofs.BytesBE()
+	H := g.payee.BytesBE()
+	var inv []byte
+	for _, k := range m.prev.alpha {
+		if a := m.accOfKey(k); a != nil && m.inWit(o, a) {
+			inv = k
+			break
+		}
+	}
+	if inv == nil {
+		return false, nil, nil
+	}
+	snap := m.re.clone()
+	delta := map[string]*big.Int{}
+	var evs []gasEv
+	bal := func(a []byte) *big.Int {
+		b := new(big.Int).Set(m.balOf(a))
+		if d := delta[string(a)]; d != nil {
+			b.Add(b, d)
+		}
+		return b
+	}
+	move := func(f, t []byte, a *big.Int) {
+		addTo(delta, f, new(big.Int).Neg(a))
+		addTo(delta, t, a)
+		evs = append(evs, gasEv{kind: 0, a: f, b: t, amount: a})
+	}
+	th := len(m.prev.alpha)*2/3 + 1
+	var rec func(c gasCall) bool
+	rec = func(c gasCall) bool {
+		if c.Kind == "withdraw" {
+			fee, feeOK := feeInt(m.prev.wfeeNil, m.prev.wfee)
+			if len(c.To) != 20 || !m.inWit(o, c.To) || c.Amount < 0 || c.Amount > 9000 || !feeOK || fee.Sign() < 0 {
+				return false
+			}
+			for _, k := range m.prev.alpha {
+				r := m.accOfKey(k)
+				if r == nil || bal(c.To).Cmp(fee) < 0 {
+					return false
+				}
+				move(c.To, r, fee)
+			}
+			evs = append(evs, gasEv{kind: 2, a: c.To, amount: new(big.Int).Mul(bn(c.Amount), bn(1_0000_0000)), c: o.txhash})
+			return true
+		}
+		t := m.re.tally[string(c.ID)]
+		if t != nil && o.height-t.last > 20 {
+			t = nil
+		}
+		if t == nil {
+			t = &reTally{}
+		}
+		isNew := true
+		for _, v := range t.voters {
+			if v == string(inv) {
+				isNew = false
+			}
+		}
+		if isNew {
+			t.voters = append(t.voters, string(inv))
+			t.last = o.height
+		}
+		m.re.tally[string(c.ID)] = t
+		if len(t.voters) < th {
+			return true // a vote: nothing moves, nothing is announced
+		}
+		delete(m.re.tally, string(c.ID))
+		am := bn(c.Amount)
+		if len(c.To) != 20 || c.Amount < 0 || bal(N).Cmp(am) < 0 {
+			return false
+		}
+		move(N, c.To, am)
+		if bytes.Equal(c.To, H) {
+			m.re.payments++
+			if p := m.re.armed; p != nil {
+				m.re.armed = nil
+				for _, nc := range p.calls {
+					if !rec(nc) {
+						return false
+					}
+				}
+				if p.fault {
+					return false
+				}
+			}
+		} else {
+			acc, dep, rcv := m.accepts(c.To, "gas", N, am, gasData{})
+			if !acc {
+				return false
+			}
+			if dep {
+				evs = append(evs, gasEv{kind: 1, a: N, amount: am, b: rcv, c: o.txhash})
+			}
+		}
+		evs = append(evs, gasEv{kind: 3, a: c.ID, b: c.To, amount: am, c: c.Lock})
+		return true
+	}
+	if !rec(top) {
+		m.re = snap
+		return false, nil, nil
+	}
+	return true, evs, delta
 }
 
 func (m *gasMon) violate(what string) {
@@ -1857,8 +2159,8 @@ func (m *gasMon) kindOf(a []byte) string {
 		return "processing"
 	case bytes.Equal(a, g.proxy.BytesBE()):
 		return "proxy"
-	case bytes.Equal(a, g.accept.BytesBE()):
-		return "accept"
+	case bytes.Equal(a, g.accept.BytesBE()), g.cfg.Payee && bytes.Equal(a, g.payee.BytesBE()):
+		return "accept" // the payee contract, when it is not armed
 	case bytes.Equal(a, g.token.BytesBE()):
 		return "nomethod"
 	}
@@ -1998,6 +2300,9 @@ func (m *gasMon) step(op gasOp, o gasObs) {
 			}
 			addTo(exp, op.From, neg(op.Amount))
 			addTo(exp, op.To, op.Amount)
+			if m.re != nil && bytes.Equal(op.To, g.payee.BytesBE()) {
+				m.re.payments++ // an ordinary transfer to the (unarmed) payee contract
+			}
 			checkEvs = true
 			wantEvs = []gasEv{gasEvent(op.From, op.To, op.Amount)}
 			if dep {
@@ -2066,7 +2371,53 @@ func (m *gasMon) step(op gasOp, o gasObs) {
 			}
 			wantEvs = append(wantEvs, gasEv{kind: 2, a: op.From, amount: new(big.Int).Mul(op.Amount, bn(1_0000_0000)), c: o.txhash})
 		}
+	case "arm", "disarm":
+		mustHalt(true, "arming the payee contract")
+		checkEvs = true
+		if o.halt && m.re != nil {
+			m.re.armed = nil
+			if op.Kind == "arm" {
+				m.re.armed = &reProg{calls: op.Calls, fault: op.Fault}
+			}
+		}
 	case "cheque":
+		if m.re != nil {
+			// deployment with a contract payee that may call back into NeoFS
+			ok, evs, delta := m.reRun(o, gasCall{Kind: "cheque", ID: op.ID, To: op.To, Amount: op.Amount.Int64(), Lock: op.Lock})
+			if o.halt && ok {
+				nPaid, nAnnounced := 0, 0
+				for _, e := range o.evs {
+					if e.kind == 0 && bytes.Equal(e.a, N) {
+						nPaid++
+					}
+					if e.kind == 3 {
+						nAnnounced++
+					}
+				}
+				want := 0
+				for _, e := range evs {
+					if e.kind == 3 {
+						want++
+					}
+				}
+				if nPaid != want || nAnnounced != want {
+					m.violate(fmt.Sprintf("%s: %d payment(s) left NeoFS and %d Cheque(s) were announced, but the Alphabet's votes approve exactly %d payment(s) in this transaction (a cheque is paid once per approval): %s",
+						what, nPaid, nAnnounced, want, op.String()))
+				}
+			}
+			mustHalt(ok, "cheque by a stored Alphabet key; payable; the payee and what it calls back do not fault")
+			if o.halt && ok {
+				checkEvs = true
+				wantEvs = evs
+				for a, d := range delta {
+					addTo(exp, []byte(a), d)
+				}
+			}
+			if o.payments != m.re.payments {
+				m.violate(fmt.Sprintf("%s: the payee contract completed %d payments, the approved cheques to it are %d", what, o.payments, m.re.payments))
+			}
+			break
+		}
 		lock := op.Lock
 		payout := func() {
 			addTo(exp, N, neg(op.Amount))
@@ -2374,7 +2725,8 @@ func TestC19(t *testing.T) {
 	cf := newFile()
 	size := 0
 	cov := map[string]map[string]int{"committee_size": {}, "inner_ring_size": {}, "alphabet_list_size": {}, "notary_disabled": {},
-		"withdraw_fee": {}, "emit_halted_by_inner_ring_size": {}, "emit_halted_g_below_20": {}}
+		"withdraw_fee": {}, "emit_halted_by_inner_ring_size": {}, "emit_halted_g_below_20": {},
+		"payee_contract_histories": {}, "payee_programs_run": {}}
 	st.Extra["coverage"] = cov
 	feeStr := func(p *int64) string {
 		if p == nil {
@@ -2399,6 +2751,13 @@ func TestC19(t *testing.T) {
 		g.observeState(&o0)
 		gg.prev = o0
 		mon := &gasMon{g: g, st: st, prev: o0, init: new(big.Int).Set(o0.bal[0]), received: new(big.Int), paid: new(big.Int)}
+		// the Coq model's callbacks cannot call back into the payer: histories with
+		// the re-entrant payee contract are judged by the Go monitor alone
+		noCoq := cfg.Payee
+		if cfg.Payee {
+			mon.re = &reState{tally: map[string]*reTally{}}
+			cov["payee_contract_histories"]["monitor-only"]++
+		}
 		cm := g.committeeKeys()
 		irNames := map[string]string{}
 		var irDefs []string
@@ -2424,7 +2783,7 @@ func TestC19(t *testing.T) {
 			}
 			o := g.exec(op)
 			mon.step(op, o)
-			if op.Kind != "designate" {
+			if op.Kind != "designate" && !noCoq {
 				// a designation is an action of the environment: the model sees it
 				// as the Inner Ring of the contexts of the following blocks
 				steps = append(steps, fmt.Sprintf("(%s, %s)", g.coqOp(pool, op, o, irName(o.ir)), g.coqObs(pool, gg.prev, o)))
@@ -2470,6 +2829,9 @@ func TestC19(t *testing.T) {
 		if len(st.Samples) < 3 && (name == "deposit-boundaries" || name == "lifecycle-nonotary-4" || name == "random-0") {
 			st.Samples = append(st.Samples, map[string]any{"history": name, "cfg": cfg, "first_ops": sample})
 		}
+		if noCoq {
+			return
+		}
 		cx := fmt.Sprintf("fun w fa ir h tx => mkCtx w %s %s fa %s ir h tx", pool.Ref(g.alphaMulti.ScriptHash().BytesBE()),
 			pool.Ref(g.E.Committee.ScriptHash().BytesBE()), refList(pool, cm))
 		c := fmt.Sprintf("(let cx := %s in %s\n (%s, %s, %s,\n %s))", cx, strings.Join(irDefs, " "), g.coqEnv(pool), refList(pool, g.parties), g.coqInit(pool, o0), ListLit(steps))
@@ -2499,6 +2861,21 @@ func TestC19(t *testing.T) {
 			}
 			return gg.next(step), true
 		}, int64(h))
+	}
+	nre := 6
+	if thorough {
+		nre = 60
+	}
+	for h := 0; h < nre; h++ {
+		r := Rng(int64(5000 + h))
+		cfg := gasEnvCfg{NC: 1, NotaryOff: true, NAlpha: 1 + r.Intn(4), WFee: i64p(int64(r.Intn(4))), CFee: i64p(1), IR: 1, AlphaIdx: []int64{0}, Payee: true}
+		n := 14 + r.Intn(16)
+		run(fmt.Sprintf("payee-random-%d", h), cfg, func(g *gasEnv, gg *gasGen, step int) (gasOp, bool) {
+			if step >= n {
+				return gasOp{}, false
+			}
+			return gg.nextRe(step), true
+		}, int64(5000+h))
 	}
 	st.DistinctNontrivial = len(distinct)
 	for i, f := range files {
